@@ -69,11 +69,11 @@ def _subtree(job):
     target, prefixes = job
     P, REG, opts = _G["P"], _G["REG"], _G["opts"]
     try:
-        r = verify_function(P, REG, REG.contracts[target], opts, work=prefixes)
+        r = verify_function(P, REG, REG.contracts[target], dict(opts, budget_paths=opts.get("job_paths", 60)), work=prefixes)
     except Exception as e:  # pragma: no cover
         r = FunctionResult(target)
+        r.pending = []
         r.error = f"worker crash {type(e).__name__}: {e}\n{traceback.format_exc()[-2000:]}"
-    r.pending = []
     return target, _strip(r)
 
 
@@ -84,23 +84,33 @@ def run_all(targets, jobs):
         firsts = [_expand(t) for t in targets]
         parts = {t: [f] for t, f in zip(targets, firsts)}
         for t, f in zip(targets, firsts):
-            if f.pending and not f.error and not f.out_of_reach:
-                parts[t].append(_subtree((t, f.pending))[1])
+            work = f.pending if (f.pending and not f.error and not f.out_of_reach) else []
+            while work:
+                r = _subtree((t, work))[1]
+                parts[t].append(r)
+                work = r.pending if not (r.error or r.out_of_reach) else []
     else:
         ctx = mp.get_context("fork")
         with ctx.Pool(jobs) as pool:
             firsts = pool.map(_expand, targets, chunksize=1)
             parts = {t: [f] for t, f in zip(targets, firsts)}
-            jobs_ = []
-            for t, f in zip(targets, firsts):
-                if f.pending and not f.error and not f.out_of_reach:
-                    n = min(len(f.pending), 4 * jobs)
+            pending = {t: list(f.pending) for t, f in zip(targets, firsts) if f.pending and not f.error and not f.out_of_reach}
+            # rounds: every job explores a bounded number of paths and hands the rest back, so that large sub-trees
+            # are spread over the pool instead of pinning one process
+            while pending:
+                jobs_ = []
+                for t, work in pending.items():
+                    n = max(1, min(len(work), 3 * jobs))
                     for i in range(n):
-                        ch = f.pending[i::n]
+                        ch = work[i::n]
                         if ch:
                             jobs_.append((t, ch))
-            for t, r in pool.imap_unordered(_subtree, jobs_, chunksize=1):
-                parts[t].append(r)
+                pending = {}
+                for t, r in pool.imap_unordered(_subtree, jobs_, chunksize=1):
+                    parts[t].append(r)
+                    if r.pending and not r.error and not r.out_of_reach:
+                        pending.setdefault(t, []).extend(r.pending)
+                    r.pending = []
     out = []
     for t in targets:
         smt2 = {}
